@@ -27,6 +27,7 @@ import (
 
 	"github.com/apache/skywalking-banyandb/banyand/internal/verifdrv/drv"
 	"github.com/apache/skywalking-banyandb/banyand/measure"
+	"github.com/apache/skywalking-banyandb/banyand/stream"
 	"github.com/apache/skywalking-banyandb/banyand/trace"
 	"github.com/apache/skywalking-banyandb/pkg/logger"
 )
@@ -131,6 +132,15 @@ func recoverDir(f []string) string {
 	d := v.Dump()
 	tree := listTree(dir)
 	res := fmt.Sprintf("OK fresh=%s epoch=%x %s tree=%s", drv.B01(v.Fresh), v.Epoch, d, tree)
+	if len(f) > 2 && f[2] == "again" {
+		// a second start with no write in between (the first process is simply gone): it must find what the
+		// first start served
+		v2 := measure.VC04Open(dir, freshEpoch)
+		res += " again:" + drv.Safe(v2.Dump)
+		v2.Close()
+		v.Close()
+		return res
+	}
 	if len(f) > 2 && f[2] == "cont" {
 		// the recovered table must be usable: ingest, flush, read back
 		v.Start()
@@ -190,12 +200,12 @@ func main() {
 		runHistory(os.Args[2], fresh, os.Args[4:])
 		return
 	}
-	if len(os.Args) > 1 && os.Args[1] == "trrun" {
-		fresh, err := strconv.ParseUint(os.Args[3], 16, 64)
+	if len(os.Args) > 1 && os.Args[1] == "engrun" {
+		fresh, err := strconv.ParseUint(os.Args[4], 16, 64)
 		if err != nil {
 			panic(err)
 		}
-		traceRun(os.Args[2], fresh, os.Args[4:])
+		engRun(os.Args[2], os.Args[3], fresh, os.Args[5:])
 		return
 	}
 	if len(os.Args) > 1 && os.Args[1] == "segrun" {
@@ -207,8 +217,8 @@ func main() {
 		if len(f) >= 2 && f[0] == "rec" {
 			return recoverDir(f)
 		}
-		if len(f) >= 2 && f[0] == "trrec" {
-			return traceRecover(f)
+		if len(f) >= 3 && f[0] == "engrec" {
+			return engRecover(f)
 		}
 		if len(f) >= 2 && f[0] == "segrec" {
 			return segRecover(f)
@@ -336,12 +346,34 @@ func segRecover(f []string) string {
 }
 
 // ---------------------------------------------------------------------------------------------------------
-// trace-table stream: the real trace tsTable with one secondary index; ops B<n> batch | F flush.
+// engine-table streams: the real trace tsTable (with one secondary index) and the real stream tsTable;
+// ops B<n> batch | F flush.
 
-func traceRun(root string, fresh uint64, ops []string) {
-	v := trace.VT04Open(root, fresh)
+type engTable interface {
+	Start()
+	Close()
+	Batch(int)
+	Flush() bool
+	Dump() string
+	WaitClean() bool
+}
+
+func engOpen(engine, root string, fresh uint64) (engTable, bool, uint64) {
+	switch engine {
+	case "trace":
+		v := trace.VT04Open(root, fresh)
+		return v, v.Fresh, v.Epoch
+	case "stream":
+		v := stream.VS04Open(root, fresh)
+		return v, v.Fresh, v.Epoch
+	}
+	panic("unknown engine " + engine)
+}
+
+func engRun(engine, root string, fresh uint64, ops []string) {
+	v, fr, ep := engOpen(engine, root, fresh)
 	v.Start()
-	fmt.Printf("open fresh=%s epoch=%x\n", drv.B01(v.Fresh), v.Epoch)
+	fmt.Printf("open fresh=%s epoch=%x\n", drv.B01(fr), ep)
 	for i, op := range ops {
 		mark(fmt.Sprintf("%d:%s", i, op))
 		res := drv.Safe(func() string {
@@ -365,20 +397,30 @@ func traceRun(root string, fresh uint64, ops []string) {
 	v.Close()
 }
 
-// traceRecover: trrec <dir> [cont]  ->  OK fresh=.. epoch=.. <dump> tree=<listing> [cont:<dump after one more batch+flush and a restart>]
-func traceRecover(f []string) string {
-	dir := f[1]
-	v := trace.VT04Open(dir, freshEpoch)
+// engRecover: engrec <engine> <dir> [cont|again]
+//   -> OK fresh=.. epoch=.. <dump> tree=<listing>
+//      [ again:<dump of a second start with no write in between>]
+//      [ cont:<dump after one more batch+flush and a restart> started:<dump right after the loops started>]
+func engRecover(f []string) string {
+	engine, dir := f[1], f[2]
+	v, fr, ep := engOpen(engine, dir, freshEpoch)
 	d := v.Dump()
-	res := fmt.Sprintf("OK fresh=%s epoch=%x %s tree=%s", drv.B01(v.Fresh), v.Epoch, d, listTree(dir))
-	if len(f) > 2 && f[2] == "cont" {
+	res := fmt.Sprintf("OK fresh=%s epoch=%x %s tree=%s", drv.B01(fr), ep, d, listTree(dir))
+	if len(f) > 3 && f[3] == "again" {
+		v2, _, _ := engOpen(engine, dir, freshEpoch)
+		res += " again:" + drv.Safe(v2.Dump)
+		v2.Close()
+		v.Close()
+		return res
+	}
+	if len(f) > 3 && f[3] == "cont" {
 		v.Start()
 		started := drv.Safe(v.Dump) // the secondary index is open now: what does it serve?
 		v.Batch(99)
 		v.Flush()
 		v.WaitClean()
 		v.Close()
-		v2 := trace.VT04Open(dir, freshEpoch)
+		v2, _, _ := engOpen(engine, dir, freshEpoch)
 		res += " cont:" + drv.Safe(v2.Dump) + " started:" + started
 		v2.Close()
 		return res
